@@ -42,6 +42,11 @@ CLAIMS = {
    text="Decides that no send can bypass the checks: every record of a data set passes the sanity check before any Write (the check is applied to the range element itself, only the set-type guard may skip it, its error edge only returns); the three sanity tests exist with failing edges returning errors; the size gate accepts exactly lengths <= 65535 and the buffer is allocated on the accepted edge; only the built message is written, only on err == nil; only two write sites exist; templates are registered only after a successful send (defect found and fixed). Fidelity clause: encoder errors must propagate and raw copies must be length-tested - two genuine violations are recorded as known findings (GetBuffer drops encoder errors; MAC copied without a length test).",
    note="Trusted: net.Conn.Write; entities accessors are the library's. Kernel-level 'nothing transmitted on failure' is not decided.",
    ref="DESIGN.md §5 C09, §6 #10 #13"),
+ "C08": dict(
+   technique="who-may-write + SSA value-identity (phi edges of the header sequence number vs. guarded atomic add), parameter-forwarding identity in the message builder (found by role), single-write/no-loop structure, branch facts of the success return, imported thread-sharing rule",
+   text="Decides the inductive step of the sequence-number bookkeeping and the header stamping by identity of SSA values: the header carries F0 + GetNumberOfRecords() exactly on the Data edge and F0 otherwise, the field is updated to the same value, only the constructor and the send function write it, its type is uint32; the builder forwards seq / domain / uint32(time.Unix()) / version 10 unmodified; time.Now() is taken at the call; one Write of the whole slice outside any loop; the success return is Write's count under err==nil && count==len. The running equality over a session follows by induction and is not enumerated; failed sends are outside the statement.",
+   note="Trusted: sync/atomic, net.Conn.Write, time.Now.",
+   ref="DESIGN.md §5 C08"),
 }
 NOT_YET = "rules designed (DESIGN.md §5) but not built yet in this round; no claim is made until the check exists"
 props=[json.loads(l) for l in open('/verif/properties.jsonl')]
